@@ -30,8 +30,34 @@ func isStripped(info *types.Info, fd *ast.FuncDecl, e ast.Expr) bool {
 		return !strings.Contains(constant.StringVal(tv.Value), "/vendor/")
 	}
 	if call, ok := e.(*ast.CallExpr); ok {
-		if fn, ok := typeutil.Callee(info, call).(*types.Func); ok && fn.Name() == "stripVendorPath" {
-			return true
+		if fn, ok := typeutil.Callee(info, call).(*types.Func); ok {
+			if fn.Name() == "stripVendorPath" {
+				return true
+			}
+			// a moq helper all of whose results are canonical paths (importPath(pkg) = stripVendorPath(pkg.Path()))
+			if stripProg != nil && stripProg.IsMoqPkg(fn.Pkg()) && stripDepth < 3 {
+				if d := stripProg.Decl(fn.Origin()); d != nil && d.Body != nil {
+					cinfo := stripProg.Info(fn.Pkg())
+					okAll, n := true, 0
+					stripDepth++
+					ast.Inspect(d.Body, func(x ast.Node) bool {
+						if _, isLit := x.(*ast.FuncLit); isLit {
+							return false
+						}
+						if rs, isRet := x.(*ast.ReturnStmt); isRet {
+							n++
+							if len(rs.Results) != 1 || !isStripped(cinfo, d, rs.Results[0]) {
+								okAll = false
+							}
+						}
+						return true
+					})
+					stripDepth--
+					if okAll && n > 0 {
+						return true
+					}
+				}
+			}
 		}
 	}
 	if id, ok := e.(*ast.Ident); ok {
@@ -63,6 +89,13 @@ func isStripped(info *types.Info, fd *ast.FuncDecl, e ast.Expr) bool {
 						n++
 					}
 				}
+				// range value of the sorted keys of an import map, or of a helper's result made of such keys
+				if vid, isID := rs.Value.(*ast.Ident); isID && vid != nil && info.ObjectOf(vid) == v {
+					if keysOfImportMap(info, fd, rs.X, 0) {
+						ok = true
+						n++
+					}
+				}
 				// range value of a slice into which only stripped keys were appended
 				if vid, isID := rs.Value.(*ast.Ident); isID && vid != nil && info.ObjectOf(vid) == v {
 					if sid, isID := ast.Unparen(rs.X).(*ast.Ident); isID {
@@ -80,93 +113,103 @@ func isStripped(info *types.Info, fd *ast.FuncDecl, e ast.Expr) bool {
 	return false
 }
 
-// CheckImports is the generator side of C11 (and the alias part of C15).
-func CheckImports(run *core.Run, prog *load.Program) {
-	// ---------------- AddImport
-	f, fn, info := moqFunc(prog, load.PkgRegistry, "Registry.AddImport")
-	if f == nil {
-		run.Undecided("G-IMPORT", "role", "internal/registry/registry.go", "(*Registry).AddImport not found")
-		return
+var (
+	stripProg  *load.Program
+	stripDepth int
+)
+
+// keysOfImportMap: the expression is a slice holding exactly keys of a map of imports (which are canonical
+// paths): slices.Sorted / slices.Collect of maps.Keys(m), a local into which only such keys were appended,
+// or the result of a moq helper that returns one of these built from its parameter.
+func keysOfImportMap(info *types.Info, fd *ast.FuncDecl, e ast.Expr, depth int) bool {
+	if depth > 3 {
+		return false
 	}
-	pos := prog.Pos(f.Decl.Pos())
-	_ = fn
-	// the Package literal: initial alias is exactly the source file's alias for the canonical path
-	var lit *ast.CompositeLit
-	ast.Inspect(f.Decl.Body, func(n ast.Node) bool {
-		if cl, ok := n.(*ast.CompositeLit); ok {
-			if nt, _ := types.Unalias(info.TypeOf(cl)).(*types.Named); nt != nil && nt.Obj().Name() == "Package" {
-				lit = cl
-			}
+	isImportMap := func(inf *types.Info, m ast.Expr) bool {
+		t := inf.TypeOf(m)
+		if t == nil {
+			return false
 		}
-		return true
-	})
-	if !run.Check("G-IMPORT/literal", "present", pos, lit != nil, "AddImport does not build a Package literal") {
-		return
+		mt, ok := t.Underlying().(*types.Map)
+		return ok && strings.HasSuffix(types.TypeString(mt.Elem(), nil), "registry.Package")
 	}
-	okAlias := false
-	var aliasExpr ast.Expr
-	for _, el := range lit.Elts {
-		if kv, ok := el.(*ast.KeyValueExpr); ok {
-			if k, ok := kv.Key.(*ast.Ident); ok && k.Name == "Alias" {
-				aliasExpr = kv.Value
-				if ix, ok := ast.Unparen(kv.Value).(*ast.IndexExpr); ok {
-					if sel, ok := ast.Unparen(ix.X).(*ast.SelectorExpr); ok && sel.Sel.Name == "aliases" && isStripped(info, f.Decl, ix.Index) {
-						okAlias = true
+	e = ast.Unparen(e)
+	switch x := e.(type) {
+	case *ast.CallExpr:
+		fn, _ := typeutil.Callee(info, x).(*types.Func)
+		if fn == nil || fn.Pkg() == nil {
+			return false
+		}
+		if fn.Pkg().Path() == "slices" && (fn.Name() == "Sorted" || fn.Name() == "Collect") && len(x.Args) == 1 {
+			if inner, ok := ast.Unparen(x.Args[0]).(*ast.CallExpr); ok && len(inner.Args) == 1 {
+				if ifn, _ := typeutil.Callee(info, inner).(*types.Func); ifn != nil && ifn.Pkg() != nil && ifn.Pkg().Path() == "maps" && ifn.Name() == "Keys" {
+					return isImportMap(info, inner.Args[0])
+				}
+			}
+			return false
+		}
+		if stripProg != nil && stripProg.IsMoqPkg(fn.Pkg()) {
+			d := stripProg.Decl(fn.Origin())
+			if d == nil || d.Body == nil {
+				return false
+			}
+			cinfo := stripProg.Info(fn.Pkg())
+			okAll, n := true, 0
+			ast.Inspect(d.Body, func(nn ast.Node) bool {
+				if _, isLit := nn.(*ast.FuncLit); isLit {
+					return false
+				}
+				if rs, isRet := nn.(*ast.ReturnStmt); isRet {
+					n++
+					if len(rs.Results) != 1 || !keysOfImportMap(cinfo, d, rs.Results[0], depth+1) {
+						okAll = false
+					}
+				}
+				return true
+			})
+			return okAll && n > 0
+		}
+	case *ast.Ident:
+		v := info.ObjectOf(x)
+		if v == nil {
+			return false
+		}
+		if _, isSlice := info.TypeOf(x).Underlying().(*types.Slice); isSlice && sliceOfStripped(info, fd, v) {
+			return true
+		}
+		// a local defined once from such an expression
+		okAll, n := true, 0
+		ast.Inspect(fd, func(nn ast.Node) bool {
+			if as, ok := nn.(*ast.AssignStmt); ok && len(as.Lhs) == len(as.Rhs) {
+				for i, l := range as.Lhs {
+					if lid, ok := ast.Unparen(l).(*ast.Ident); ok && info.ObjectOf(lid) == v {
+						n++
+						if !keysOfImportMap(info, fd, as.Rhs[i], depth+1) {
+							okAll = false
+						}
 					}
 				}
 			}
-		}
+			return true
+		})
+		return okAll && n == 1
 	}
-	what := "<unset>"
-	if aliasExpr != nil {
-		what = types.ExprString(aliasExpr)
-	}
-	run.Check("G-IMPORT/source-alias", "initial-alias", prog.Pos(lit.Pos()), okAlias, fmt.Sprintf("a new import starts with the alias %s, want exactly the alias the source files use for its canonical path (r.aliases[stripVendorPath(path)]): an alias the source already uses must be kept when it conflicts with nothing — and must come back unchanged when moq reads its own earlier output", what))
-	// de-duplication by canonical path and the destination test precede everything
-	store := (*ast.AssignStmt)(nil)
-	ast.Inspect(f.Decl.Body, func(n ast.Node) bool {
-		if as, ok := n.(*ast.AssignStmt); ok && len(as.Lhs) == 1 {
-			if ix, ok := ast.Unparen(as.Lhs[0]).(*ast.IndexExpr); ok {
-				if sel, ok := ast.Unparen(ix.X).(*ast.SelectorExpr); ok && sel.Sel.Name == "imports" {
-					store = as
-					run.Check("G-IMPORT/keys", "AddImport:store", prog.Pos(as.Pos()), isStripped(info, f.Decl, ix.Index), "imports are registered under "+types.ExprString(ix.Index)+", want the vendor-stripped path (one entry per canonical path)")
-				}
-			}
-		}
-		return true
-	})
-	if !run.Check("G-IMPORT/store", "present", pos, store != nil, "AddImport never stores into the imports map") {
+	return false
+}
+
+// CheckImports is the generator side of C11 (and the alias part of C15).
+func CheckImports(run *core.Run, prog *load.Program) {
+	stripProg = prog
+	// the registration itself (canonical key, source alias, conflict search before the store, de-duplication)
+	// and the alias harvest are decided by interpreting registry.New and AddImport (props: importTables)
+	pos := "internal/registry/registry.go"
+	if fn := prog.LookupFunc(load.PkgRegistry, "Registry.AddImport"); fn != nil {
+		pos = prog.Pos(fn.Pos())
+	} else {
+		run.Undecided("G-IMPORT", "role", pos, "(*Registry).AddImport not found")
 		return
 	}
-	// the conflict search dominates the registration, whatever the alias is
-	var searches = map[ast.Node]bool{}
-	for _, s := range f.Sites() {
-		if calleeNamed(prog, "Registry.searchImport")(s) {
-			searches[s.Call] = true
-		}
-	}
-	run.Check("G-IMPORT/conflict-check", "present", pos, len(searches) > 0, "AddImport never searches for an import with the same qualifier")
-	if len(searches) > 0 {
-		b, i := firstNodeWithin(f, lit)
-		if n := nodeHolding(f, lit); n != nil {
-			b, i = locate(f, n)
-		}
-		r := f.Explore(b, i, cfgx.Cuts{Nodes: searches})
-		run.Check("G-IMPORT/conflict-check", "dominates-registration", pos, !r.Passed(nodeHolding(f, store)), "an import can be registered on a path that never compares its qualifier with the imports already registered (e.g. when it carries a source alias): two imports with one qualifier make the file uncompilable")
-		// the searched name is the qualifier of the new import
-		for c := range searches {
-			call := c.(*ast.CallExpr)
-			run.Check("G-IMPORT/conflict-check", "searches-own-qualifier", prog.Pos(call.Pos()), len(call.Args) == 1 && strings.HasSuffix(types.ExprString(call.Args[0]), ".Qualifier()"), "the conflict search looks for "+types.ExprString(call.Args[0])+", want the new import's qualifier")
-		}
-		// when a conflict is found it is resolved before the registration
-		var resolves = map[ast.Node]bool{}
-		for _, s := range f.Sites() {
-			if calleeNamed(prog, "Registry.resolveImportConflict")(s) {
-				resolves[s.Call] = true
-			}
-		}
-		run.Check("G-IMPORT/conflict-check", "resolution-present", pos, len(resolves) > 0, "a found conflict is never resolved")
-	}
+	reachAddImport := reachableFrom(prog, prog.LookupFunc(load.PkgRegistry, "Registry.AddImport"))
 	// destination package: returns without registering iff the stripped path equals moqPkgPath — via decision table (interp) in CheckDestination
 	// ---------------- writers of Package.Alias
 	nAliasWrites := 0
@@ -186,7 +229,7 @@ func CheckImports(run *core.Run, prog *load.Program) {
 				}
 				nAliasWrites++
 				fname := load.FuncName(fnn)
-				okW := fname == "Registry.resolveImportConflict" && len(as.Rhs) == len(as.Lhs)
+				okW := reachAddImport[fnn] && len(as.Rhs) == len(as.Lhs)
 				if okW {
 					// the value is (a variable holding) uniqueName(...)
 					okW = fromUniqueName(inf, fd, as.Rhs[i])
@@ -197,8 +240,6 @@ func CheckImports(run *core.Run, prog *load.Program) {
 		})
 	})
 	run.Floor("G-IMPORT/alias-writers", 1)
-	// ---------------- aliases harvested from the source: never "." or "_"
-	checkAliasHarvest(run, prog)
 	// ---------------- every lookup into an imports map uses a stripped key; the printed path is stripped too
 	funcsOf(prog, func(pkgPath string, inf *types.Info, fd *ast.FuncDecl, fnn *types.Func) {
 		if pkgPath != load.PkgRegistry {
@@ -223,23 +264,33 @@ func CheckImports(run *core.Run, prog *load.Program) {
 	})
 	run.Floor("G-IMPORT/keys", 4)
 	// who may call AddImport
+	// callers: the type walker family (what AddVar reaches inside the registry) and the Mock family (what
+	// Mock reaches inside pkg/moq, registering exactly sync and the source package: G-DATA/imports)
+	walker := reachableFrom(prog, prog.LookupFunc(load.PkgRegistry, "MethodScope.AddVar"))
+	mockFam := reachableFrom(prog, prog.LookupFunc(load.PkgMoq, "Mocker.Mock"))
 	var callers []string
+	allowed := map[string]bool{}
 	funcsOf(prog, func(pkgPath string, inf *types.Info, fd *ast.FuncDecl, fnn *types.Func) {
 		ast.Inspect(fd.Body, func(n ast.Node) bool {
 			if call, ok := n.(*ast.CallExpr); ok {
 				if cf, ok := typeutil.Callee(inf, call).(*types.Func); ok && load.FuncName(cf) == "Registry.AddImport" && prog.IsMoqPkg(cf.Pkg()) {
-					callers = append(callers, load.FuncName(fnn))
+					name := load.FuncName(fnn)
+					callers = append(callers, name)
+					switch {
+					case pkgPath == load.PkgRegistry && walker[fnn]:
+						allowed[name] = true
+					case pkgPath == load.PkgMoq && mockFam[fnn]:
+						allowed[name] = true
+					}
 				}
 			}
 			return true
 		})
 	})
 	sort.Strings(callers)
-	allowed := map[string]bool{"MethodScope.populateImports": true, "Mocker.Mock": true}
 	for _, cname := range callers {
 		run.Check("G-IMPORT/who-may-register", cname, pos, allowed[cname], cname+" registers an import: only the type walker (for packages a printed type mentions) and Mock (sync, the source package) may, otherwise the import block is not exact")
 	}
-	CheckSearchLive(run, prog)
 	CheckQualifierFinal(run, prog)
 	run.Count("addimport_call_sites", len(callers))
 	run.Floor("G-IMPORT/who-may-register", 2)
@@ -264,8 +315,37 @@ func fromUniqueName(info *types.Info, fd *ast.FuncDecl, e ast.Expr) bool {
 		return false
 	}
 	if call, ok := e.(*ast.CallExpr); ok {
-		if fn, ok := typeutil.Callee(info, call).(*types.Func); ok && fn.Name() == "uniqueName" {
+		fn, ok := typeutil.Callee(info, call).(*types.Func)
+		if !ok {
+			return false
+		}
+		if fn.Name() == "uniqueName" {
 			return true
+		}
+		// a moq helper that returns one of its string parameters, possibly numbered, when every call
+		// hands it a uniqueName-derived string there
+		if stripProg != nil && stripProg.IsMoqPkg(fn.Pkg()) && stripDepth < 3 {
+			d := stripProg.Decl(fn.Origin())
+			if d == nil || d.Body == nil {
+				return false
+			}
+			cinfo := stripProg.Info(fn.Pkg())
+			stripDepth++
+			defer func() { stripDepth-- }()
+			okAll, n := true, 0
+			ast.Inspect(d.Body, func(x ast.Node) bool {
+				if _, isLit := x.(*ast.FuncLit); isLit {
+					return false
+				}
+				if rs, isRet := x.(*ast.ReturnStmt); isRet {
+					n++
+					if len(rs.Results) != 1 || !fromUniqueName(cinfo, d, rs.Results[0]) {
+						okAll = false
+					}
+				}
+				return true
+			})
+			return okAll && n > 0
 		}
 		return false
 	}
@@ -274,6 +354,37 @@ func fromUniqueName(info *types.Info, fd *ast.FuncDecl, e ast.Expr) bool {
 		return false
 	}
 	v := info.ObjectOf(id)
+	// a string parameter: every call site passes a uniqueName-derived string
+	if pv, isVar := v.(*types.Var); isVar && stripProg != nil && fd.Type.Params != nil {
+		pi, k := -1, 0
+		for _, f := range fd.Type.Params.List {
+			for _, nm := range f.Names {
+				if info.Defs[nm] == pv {
+					pi = k
+				}
+				k++
+			}
+		}
+		if self, _ := info.Defs[fd.Name].(*types.Func); pi >= 0 && self != nil && !self.Exported() && stripDepth < 3 {
+			stripDepth++
+			defer func() { stripDepth-- }()
+			calls, good := 0, 0
+			funcsOf(stripProg, func(pkgPath string, cinfo *types.Info, cfd *ast.FuncDecl, caller *types.Func) {
+				ast.Inspect(cfd.Body, func(x ast.Node) bool {
+					if call, ok := x.(*ast.CallExpr); ok {
+						if cf, ok := typeutil.Callee(cinfo, call).(*types.Func); ok && cf.Origin() == self && pi < len(call.Args) {
+							calls++
+							if fromUniqueName(cinfo, cfd, call.Args[pi]) {
+								good++
+							}
+						}
+					}
+					return true
+				})
+			})
+			return calls > 0 && calls == good
+		}
+	}
 	okAll, n := true, 0
 	ast.Inspect(fd, func(x ast.Node) bool {
 		if as, ok := x.(*ast.AssignStmt); ok && len(as.Lhs) == len(as.Rhs) {
@@ -902,5 +1013,35 @@ func HelperLengthConstants(prog *load.Program) []int {
 			return true
 		})
 	})
+	return out
+}
+
+// reachableFrom: the moq functions reachable from fn through static calls (fn included).
+func reachableFrom(prog *load.Program, fn *types.Func) map[*types.Func]bool {
+	out := map[*types.Func]bool{}
+	if fn == nil {
+		return out
+	}
+	graph := map[*types.Func][]*types.Func{}
+	funcsOf(prog, func(pkgPath string, info *types.Info, fd *ast.FuncDecl, f *types.Func) {
+		ast.Inspect(fd.Body, func(n ast.Node) bool {
+			if call, ok := n.(*ast.CallExpr); ok {
+				if cf, ok := typeutil.Callee(info, call).(*types.Func); ok && prog.IsMoqPkg(cf.Pkg()) {
+					graph[f] = append(graph[f], cf.Origin())
+				}
+			}
+			return true
+		})
+	})
+	work := []*types.Func{fn.Origin()}
+	for len(work) > 0 {
+		f := work[len(work)-1]
+		work = work[:len(work)-1]
+		if out[f] {
+			continue
+		}
+		out[f] = true
+		work = append(work, graph[f]...)
+	}
 	return out
 }
